@@ -47,17 +47,26 @@ def mc_leg(rep, kind, table, pol, liveness=True, par=4, workers=4, timeout=1500)
     res = mc.run_many(kind, cfgs, liveness=liveness, par=par, workers=workers, timeout=timeout)
     bad = []
     for name, c, r in res:
+        if getattr(r, "timed_out", False) and not (r.violated or r.temporal or r.deadlock):
+            # not finished within its time: counted with what was explored, no verdict from this configuration
+            rep.add("states", r.distinct)
+            rep.add("transitions", r.generated)
+            rep.add("mc_configs_not_finished")
+            rep.notes.append("model checking of %s did not finish within %d s (%d distinct states explored, no error so far)" % (name, timeout, r.distinct))
+            continue
         if not (r.completed or r.violated or r.temporal or r.deadlock):
             raise vlib.Infra("TLC failed on %s:\n%s" % (name, r.text[-2000:]))
         rep.add("states", r.distinct)
         rep.add("transitions", r.generated)
         rep.add("mc_configs")
+        if liveness and not getattr(r, "liveness", True):
+            rep.add("mc_configs_safety_only")
         if not r.ok:
             bad.append((name, c, r))
     return bad
 
 
-def mc_legs(rep, legs, pol, liveness=True, timeout=1500):
+def mc_legs(rep, legs, pol, liveness=True, timeout=900):
     """Several legs at once (all configurations share the 16 cores)."""
     from concurrent.futures import ThreadPoolExecutor
     n = sum(len(t) for _, t in legs)
